@@ -51,6 +51,7 @@ def make(shape: Dict[str, Any], tier: str = 'thorough') -> Any:
             for k, (qn, qt) in enumerate(((NAME, SRV), (NAME, TXT), (NAME, A), (NAME, AAAA))):
                 zc.question_history.add_question_at_time(DNSQuestion(qn, qt, const._CLASS_IN), t0 - ctx.int(f'asked_before_ms{k}', 0, 2000), set())
         info = AsyncServiceInfo(T1, NAME, server=HOST) if shape.get('server_given') else AsyncServiceInfo(T1, NAME)
+        seen_before = dict(info.properties)  # the application looks at the (still empty) properties before the answer arrives
         task = loop.create_task(info.async_request(zc, timeout, qtype))
         loop.run_ready()
         finished_at: Optional[Any] = t0 if task.done() else None
@@ -152,6 +153,24 @@ def make(shape: Dict[str, Any], tier: str = 'thorough') -> Any:
                 # answered from the cache alone: all unexpired cached addresses of the host, and nothing else
                 want_addrs = sorted({VOCAB[k].rd['address'] for k in cached if k in ('A1', 'A2', 'AAAA1') and unexpired(known[k], t0)})
                 ctx.check(sorted(set(packed)) == want_addrs, 'lookup answered from the cache does not hold exactly the unexpired cached addresses of the host')
+        # ---- TXT: the decoded properties always are the decoding of the TXT bytes held (RFC 6763 section 6, first key wins,
+        #      empty value read back as no value), also when they were looked at before the TXT record arrived
+        ctx.check(seen_before == {}, 'a fresh lookup object has properties')
+        want_props: Dict[bytes, Any] = {}
+        raw = info.text or b''
+        pos = 0
+        while pos < len(raw):
+            n = raw[pos]
+            item = raw[pos + 1: pos + 1 + n]
+            pos += 1 + n
+            if item:
+                k, sep, v = item.partition(b'=')
+                if k not in want_props:
+                    want_props[k] = (v or None) if sep else None
+        ctx.check(dict(info.properties) == want_props, 'the decoded properties of the lookup are not the decoding of the TXT bytes it holds')
+        txt_seen = [k for k in known if k.split('@')[0] in ('T1', 'T1b')]
+        if result is True and txt_seen:
+            ctx.check(info.text in (VOCAB['T1'].rd['text'], VOCAB['T1b'].rd['text']) or not info.text, 'TXT not taken from a TXT record of the instance')
         # ---- transmissions
         sends = [s for s in env.sent_log(zc)]
         for s in sends:
